@@ -160,12 +160,10 @@ func (in *verifGroupIn) verifGen(m int) int32 {
 		return 1
 	}
 	if !in.conflicted(m) {
-		// generations are only compared between claimants of the same partition; for
-		// the others only the sign matters (it selects the metadata that is parsed)
-		if !verifThorough() {
-			return 1
-		}
-		return [...]int32{-1, 1}[verifPick(2)]
+		// generations are only compared between claimants of the same partition
+		// (the sign of the others only selects Owned vs UserData, which carry the
+		// same claim; the symbolic-generation harnesses cover it)
+		return 1
 	}
 	return [...]int32{-1, 1, 2}[verifPick(3)]
 }
